@@ -1,5 +1,7 @@
 package twig
 
+import "os"
+
 // C16: a compiled template is interchangeable with its source. Exported API only
 // (CompiledTemplate, SerializeCompiledTemplate, DeserializeCompiledTemplate, Engine.CompileTemplate,
 // Engine.LoadFromCompiledData).
@@ -129,4 +131,78 @@ func VH_C16_Sequence() {
 	}
 	symAssert(ra.Name == a.Name && ra.Source == a.Source && ra.LastModified == a.LastModified && string(ra.AST) == string(a.AST), "first-template-intact")
 	symAssert(rb.Name == b.Name && rb.Source == b.Source && rb.CompileTime == b.CompileTime, "second-template-intact")
+}
+
+// ---- C16.files: files written by the compiled loader are read back the same way --------------------
+// Package os is an in-memory model inside the symbolic engine; natively a temporary directory is used.
+
+var vhC16Sources = []string{"first {{ x }}", "second {{ x|upper }}!", "", "{% if x %}T{% endif %}\xff\x00"}
+
+// VH_C16_Files: two engines hold (possibly different) templates under the same two names; a sequence
+// of S saves through one CompiledLoader (SaveCompiled of either engine and name, CompileAll of either
+// engine); afterwards every file reads back as the template that was saved into it last: Load returns
+// that source and a fresh engine with the loader renders it like the engine it was saved from.
+func VH_C16_Files() {
+	dir, err := os.MkdirTemp("", "vhc16")
+	if err != nil {
+		panic(vhStop{"no temporary directory"})
+	}
+	defer os.RemoveAll(dir)
+	l := NewCompiledLoader(dir + "/compiled")
+	es := []*Engine{New(), New()}
+	src := [2][2]string{}
+	names := []string{"page", "other"}
+	for i, e := range es {
+		for j, n := range names {
+			// engine 0 holds sources 0 and 2; engine 1 holds any
+			if i == 0 {
+				src[i][j] = vhC16Sources[2*j]
+			} else {
+				src[i][j] = vhC16Sources[symChoice(len(vhC16Sources))]
+			}
+			if e.RegisterString(n, src[i][j]) != nil {
+				symAssume(false)
+			}
+		}
+	}
+	last := map[string]int{} // name -> engine whose template was saved last
+	hist := ""
+	steps := symParam("S", 3)
+	for s := 0; s < steps; s++ {
+		op := symChoice(5)
+		i := op % 2
+		switch {
+		case op < 4:
+			n := names[op/2]
+			hist += "S" + string(rune('0'+i)) + n[:1]
+			symAssert(l.SaveCompiled(es[i], n) == nil, "save-succeeds")
+			last[n] = i + 1
+		default:
+			i = symChoice(2)
+			hist += "A" + string(rune('0'+i))
+			symAssert(l.CompileAll(es[i]) == nil, "save-succeeds")
+			for _, n := range names {
+				last[n] = i + 1
+			}
+		}
+	}
+	symTag("hist:" + hist)
+	x := symStringIn(1, "a<")
+	ctx := map[string]interface{}{"x": x}
+	for j, n := range names {
+		if last[n] == 0 {
+			symAssert(!l.Exists(n), "unsaved-name-has-no-file")
+			continue
+		}
+		i := last[n] - 1
+		got, err := l.Load(n)
+		symAssert(err == nil, "file-reads-back")
+		symAssert(got == src[i][j], "file-holds-the-source-saved-last")
+		fresh := New()
+		fresh.RegisterLoader(l)
+		o1, e1 := fresh.Render(n, ctx)
+		o2, e2 := es[i].Render(n, ctx)
+		symAssert((e1 == nil) == (e2 == nil) && o1 == o2, "renders-like-the-saved-template")
+	}
+	symCover("read-back")
 }
